@@ -110,7 +110,14 @@ def qmeta_interp(repo, res):
         it = install_arrays(install(Interp(repo, load_classes(repo), primary=AN)))
         integrals = [[_Integral(*spec) for spec in g] for g in form_groups]
         idata = [Node("IntegralData", integrals=list(g), integral_type=g[0]._itype if g else "cell", subdomain_id=(k,)) for k, g in enumerate(integrals)]
-        fd = Node("FormData", integral_data=idata)
+        # the form's own element lists, consistent with the integrands: the first element is the argument's, the others are coefficients'
+        allels = []
+        for g in integrals:
+            for i_ in g:
+                for e_ in i_._elements:
+                    if e_ not in allels:
+                        allels.append(e_)
+        fd = Node("FormData", integral_data=idata, argument_elements=allels[:1], coefficient_elements=allels[1:], rank=1 if allels else 0)
         coord = Node("_ElementBase", name="coordinate element")
         it.extra_bases["_ElementBase"] = ("_ElementBase",)
         dom = Node("Mesh", _ufl_coordinate_element=coord)
@@ -254,8 +261,8 @@ def qmeta_interp(repo, res):
     "analyze_ufl_objects interpreted on a sample object list (forms - two of them distinct objects with the same UFL signature -, "
     "expressions with points, a mesh, an element): form_data has one entry per form, in order, each computed from that very form "
     "object (names and coefficient names are looked up by the identity of the original form); expressions keep their order as "
-    "(processed, points, original); elements and coordinate elements of every object are collected",
-    min_instances=4,
+    "(processed, points, original); elements and coordinate elements of every object are collected; unknown objects are rejected",
+    min_instances=5,
 )
 def analyze_objects(repo, res):
     m = repo.mod(AN)
@@ -353,6 +360,17 @@ def analyze_objects(repo, res):
     ue = out.f.get("unique_elements") or []
     if [e.name for e in ue] != ["DG0", "P1", "P2"] or out.f.get("element_numbers") != {e: i for i, e in enumerate(ue)}:
         res.fail(key, f"unique elements are {ue} with numbers {out.f.get('element_numbers')}: every element of every form, expression and stand-alone element must be numbered once", loc)
+    key = f"{f.key}:unknown-object-rejected"
+    res.ob(key)
+
+    class Thing(PyNative):
+        def __getitem__(self, k):
+            return "not an expression"
+    try:
+        it.call_f(f, [[a, Thing()], "float64"])
+        res.fail(key, "an object that is neither a form, an element, a mesh nor an (expression, points) pair is accepted by analyze_ufl_objects instead of being rejected", loc)
+    except Raised:
+        pass
     key = f"{f.key}:coordinate-elements-collected"
     res.ob(key)
     uc = out.f.get("unique_coordinate_elements") or []
